@@ -168,6 +168,24 @@ fn integers(ctx: &mut Ctx) {
             expect_rows(ctx, &Case::owned(vec!["--unique".into()], inp(two.clone())), "unique-neighbours", n, vec![v.clone(), m.clone()]);
             expect_rows(ctx, &Case::owned(vec!["--merge".into(), "--sort-by=.".into()], inp(two.clone())), "sort-merge-neighbours", n, vec![V::Arr(vec![v.clone(), m.clone()])]);
             expect_rows(ctx, &Case::owned(vec!["--select=(= #0 #1)=eq".into(), "--select=(sort_unique .)=u".into()], inp(format!("[{d},{}]", n + 1))), "eq-neighbours", n, vec![V::Obj(vec![("eq".into(), V::Bool(false)), ("u".into(), V::Arr(vec![v.clone(), m.clone()]))])]);
+            // the pair through equality-based collection functions (the values, not their order, are what is claimed)
+            expect_rows(
+                ctx,
+                &Case::owned(
+                    vec![
+                        "--select=(filter . (= . ^#1))=f".into(),
+                        "--select=(len (sort_unique (push . #0 #1)))=nu".into(),
+                        "--select=(len (keys (group_by . (stringify .))))=ng".into(),
+                        "--select=(set \"x\" #0 (set \"x\" #1 :x))=sh".into(),
+                        "--select=(get (put (put {} \"a\" #0) \"a\" #1) \"a\")=pu".into(),
+                        "--select=(!= #1 #0)=ne".into(),
+                    ],
+                    inp(format!("[{d},{}]", n + 1)),
+                ),
+                "neighbours-through-functions",
+                n,
+                vec![V::Obj(vec![("f".into(), V::Arr(vec![m.clone()])), ("nu".into(), V::int(2)), ("ng".into(), V::int(2)), ("sh".into(), m.clone()), ("pu".into(), m.clone()), ("ne".into(), V::Bool(true))])],
+            );
         }
         // function routes, batched: one run, one selection per route
         let mut args = Vec::new();
